@@ -639,6 +639,49 @@ pub fn check_socket(env: &Option<SocketEnv>, h: &History, obs: &mut Obs) -> Chec
     }
 }
 
+/// A reply that does not fit the socket's send buffer in one go: the request's id is a string of `size` bytes (the
+/// reply echoes it), a small request follows in the same write, and the client starts reading only later, so the
+/// server meets a full buffer in the middle of the reply. Both replies must still arrive complete, one per line.
+#[derive(Debug, Clone, Hash, Serialize, Deserialize)]
+pub struct BigReply {
+    pub size: u32,
+    pub wait_ms: u16,
+}
+
+pub fn check_big_reply(env: &Option<SocketEnv>, c: &BigReply, obs: &mut Obs) -> CheckResult {
+    use std::io::{BufRead, BufReader, Write};
+    let Some(env) = env else { return Ok(()) };
+    let Ok(st) = std::os::unix::net::UnixStream::connect(&env.path) else { return Ok(()) };
+    let _ = st.set_read_timeout(Some(std::time::Duration::from_secs(20)));
+    let _ = st.set_write_timeout(Some(std::time::Duration::from_secs(20)));
+    let big: String = (0..c.size).map(|i| (b'a' + (i % 26) as u8) as char).collect();
+    let text = format!("{{\"jsonrpc\":\"2.0\",\"id\":\"{big}\",\"method\":\"get_status\"}}\n{{\"jsonrpc\":\"2.0\",\"id\":2,\"method\":\"get_status\"}}\n");
+    // the writer runs beside the reader-to-be: with a big request the server may already be answering while the
+    // tail is still being written
+    let mut wr = st.try_clone().map_err(|e| crate::rt::Violation { sig: "harness".into(), msg: e.to_string() })?;
+    let writer = std::thread::spawn(move || wr.write_all(text.as_bytes()).is_ok());
+    std::thread::sleep(std::time::Duration::from_millis(c.wait_ms as u64));
+    let mut r = BufReader::with_capacity(1 << 16, st);
+    let mut l1 = String::new();
+    let mut l2 = String::new();
+    let g1 = r.read_line(&mut l1).is_ok_and(|n| n > 0);
+    let g2 = r.read_line(&mut l2).is_ok_and(|n| n > 0);
+    let wrote = writer.join().unwrap_or(false);
+    if !wrote {
+        obs.class("harness-write-failed");
+        return Ok(());
+    }
+    obs.nontrivial = c.size >= 200_000;
+    obs.class(if c.size >= 200_000 { "reply-larger-than-the-socket-buffer" } else { "reply-fits-the-socket-buffer" });
+    let v1 = serde_json::from_str::<serde_json::Value>(&l1).ok();
+    let ok1 = g1 && v1.as_ref().is_some_and(|v| v["id"].as_str().is_some_and(|s| s.len() == big.len() && s == big) && v.get("result").is_some());
+    vensure!(ok1, "large-reply-damaged", "a request whose id is a {}-byte string (client reads {} ms later): the first reply line has {} bytes and {}", c.size, c.wait_ms, l1.len(), if v1.is_some() { "is JSON but does not echo the id with a result" } else { "is not one JSON document" });
+    let v2 = serde_json::from_str::<serde_json::Value>(&l2).ok();
+    let ok2 = g2 && v2.as_ref().is_some_and(|v| v["id"] == json!(2) && v.get("result").is_some());
+    vensure!(ok2, "large-reply-damaged", "the small request behind a {}-byte reply was answered with {:?}", c.size, l2.chars().take(120).collect::<String>());
+    Ok(())
+}
+
 fn history_strategy(max: usize) -> impl Strategy<Value = History> {
     vec(any_line(), 1..max).prop_map(|lines| History { lines })
 }
@@ -867,7 +910,7 @@ pub fn run(ctx: &Ctx) -> &'static str {
             || ctx.replay_case::<History, _>("two-entry-points", &file, &body, check_two_entry_points)
             || {
                 let env = SocketEnv::new(99);
-                ctx.replay_case::<History, _>("socket", &file, &body, |c, o| check_socket(&env, c, o))
+                ctx.replay_case::<History, _>("socket", &file, &body, |c, o| check_socket(&env, c, o)) || ctx.replay_case::<BigReply, _>("large-replies", &file, &body, |c, o| check_big_reply(&env, c, o))
             };
         // a stress finding is replayed by running the stress again (the schedule cannot be pinned)
         let part = body["part"].as_str().map(String::from).unwrap_or_default();
@@ -928,6 +971,16 @@ pub fn run(ctx: &Ctx) -> &'static str {
         |w| {
             let env = SocketEnv::new(w);
             move |c: &History, o: &mut Obs| check_socket(&env, c, o)
+        },
+    );
+    ctx.explore(
+        "large-replies",
+        "a request whose id is a 1 kB .. 1.5 MB string (echoed in the reply) followed by a small request in the same write, over the real control socket, the client starting to read 0..400 ms later: both replies arrive complete, one per line; non-trivial = the reply is larger than the socket buffer (>= 200 kB)",
+        ctx.tier.pick(48, 600),
+        || (prop_oneof![2 => 1_000u32..200_000, 3 => 200_000u32..1_500_000, 1 => Just(1_048_576u32)], prop_oneof![Just(0u16), Just(300), 0u16..400]).prop_map(|(size, wait_ms)| BigReply { size, wait_ms }),
+        |w| {
+            let env = SocketEnv::new(200 + w);
+            move |c: &BigReply, o: &mut Obs| check_big_reply(&env, c, o)
         },
     );
     if ctx.tier == Tier::Thorough {
